@@ -751,8 +751,6 @@ func (m *Nitro) Visitor(snap *Snapshot, callb VisitorCallback, shards int, concu
 	var wg sync.WaitGroup
 	var pivotItems []*Item
 
-	wch := make(chan int, shards)
-
 	if snap == nil {
 		panic("snapshot cannot be nil")
 	}
@@ -785,6 +783,7 @@ func (m *Nitro) Visitor(snap *Snapshot, callb VisitorCallback, shards int, concu
 	}()
 
 	errors := make([]error, len(pivotItems)-1)
+	wch := make(chan int, len(pivotItems)-1)
 
 	// Run workers
 	for i := 0; i < concurrency; i++ {
